@@ -65,7 +65,8 @@ CHECKS["C11"] = dict(
          "null/unset/empty/large x 0..4 batch children x id/string lengths) is concretised by the reference codec, byte-identical to the specification's "
          "layout, and replayed into codecs.CustomRawCodec on 5 decode paths: same query string / id / children / consistency as the specification and the "
          "reference decoder, byte-exact re-encoding, error on every truncation inside the leading fields, no panic/hang/out-of-input slice on all prefixes, "
-         "seeded mutants and random bytes",
+         "seeded mutants and random bytes; value counts at the boundaries of their 16-bit field; a size sweep (BATCHes of 5000 children, QUERY / EXECUTE "
+         "with one large value, body length 40 KB .. 2.7 MB in steps of about 4 KB)",
     note="Trusts go-cassandra-native-protocol as the definition of a valid body and its lz4/snappy compressors; optional parameters carry fixed numeric "
          "values, contents are filler + seeded random; well-delimited but invalid bodies (bad consistency/batch type, n<-2 values, zero/negative lengths) "
          "and cuts in the opaque remainder carry no accept/reject verdict; inputs announcing >1 MiB strings are not generated as mutants; arbitrary bytes "
@@ -75,7 +76,8 @@ CHECKS["C19"] = dict(
     category="exploration",
     technique="TLA+ decision table + handshake machine (AstraTLS.tla), TLC-exported rows replayed with freshly minted x509 chains against the real "
               "resolver / endpoints / proxycore.Connect",
-    text="For every abstract server chain (5 signers x extra cert x 3 SANs x 5 validities, two of them time-shifted: valid when the endpoint was made and "
+    text="For every abstract server chain (7 signers - incl. a lookalike of a genuine chain and a server that shows a genuine certificate behind one of its "
+         "own making - x extra cert x 3 SANs x 5 validities, two of them time-shifted: valid when the endpoint was made and "
          "expired at the handshake, and the reverse; + empty) x {metadata, contact-point node, peers node} x "
          "{DNS, IP bundle host} x {TLS1.2, 1.3} the real code accepts exactly the chains that verify against the bundle CA for the bundle host now; "
          "rejected servers complete no handshake, see no client certificate and receive zero application bytes; accepted servers see the bundle's "
@@ -89,7 +91,8 @@ CHECKS["C20"] = dict(
               "(thorough: and the real binary) against the fake backend, effects observed on the wire",
     text="Every documented spelling of protocol-version / max-protocol-version / consistency names (all letter cases in thorough) via flag, environment "
          "and YAML selects exactly the named value (STARTUP version at the backend, client version gate, consistency seen at the backend); every invalid "
-         "configuration class of the statement returns non-zero and leaves no listener.",
+         "configuration class of the statement returns non-zero and leaves no listener; unknown names include near misses of the documented ones (a wire code "
+         "plus 256, a sign or leading zero, the prefix of the other family, a letter too many).",
     note="Version order from the help text, v5-vs-DSE pairs left open; malformed YAML syntax / unreadable bundle / source precedence are only observed "
          "(the statement does not name them); 'started' = --bind accepts TCP.",
     design="§6 C20")
@@ -211,7 +214,8 @@ CHECKS["C12"] = dict(
               "tables replayed against the in-process proxy configured through VerifSetUnsupportedWriteConsistencies",
     text="every decision row (unsupported list in {empty, singletons, pairs, all} x override x 11 consistencies x statement class, incl. prepared SELECT / "
          "write / unknown id) of every enumerated configuration is run end to end with round-robin frame shapes; the backend's reference decode is compared "
-         "field by field with what was sent, only the consistency may differ and only where the TLC table says so; well-framedness and decompression are checked",
+         "field by field with what was sent, only the consistency may differ and only where the TLC table says so; well-framedness and decompression are checked; "
+         "in a pipelined workload with retries and re-preparations every write that reaches a backend - first attempt or later - must carry the override",
     note="verdict left open for EXECUTE of ids unknown to the proxy; compression flag of re-encoded frames not asserted; quick tier enumerates adjacent pairs "
          "and two overrides per list; single-node backend.",
     design="§6 C12")
@@ -241,11 +245,11 @@ CHECKS["C09"] = dict(
     technique="TLA+ decision table plus a small connection-dispatch model (Intercept.tla) checked and exported by TLC; behaviours replayed into "
               "parser.IsQueryHandled and into the in-process proxy against a fake backend",
     text="every row of the intercept decision table (current keyspace x qualifier x table spelling incl. case/quote variants and look-alikes x "
-         "SELECT/non-SELECT/USE shapes) x {QUERY, PREPARE+EXECUTE, PREPARE+USE+EXECUTE, USE+QUERY, failed USE+QUERY} is answered locally iff the TLA+ "
+         "SELECT/non-SELECT/USE shapes) x {QUERY, PREPARE+EXECUTE, PREPARE+USE+EXECUTE, USE+QUERY, failed USE+QUERY, PREPARE carrying a keyspace of its own (DSEv2) + EXECUTE} is answered locally iff the TLA+ "
          "oracle says so, both by parser.IsQueryHandled (7 spellings each, plus comment forms) and by the running proxy (no client frame reaches the "
          "fake backend for local steps; forwarded steps do reach it). TLC checks NeverForwardSystemLocalOrPeers, UserKeyspaceForwarded, "
          "OnlyUseAndSelectLocal, LookAlikeForwarded, QualifierWins, spelling irrelevance and ExecuteFollowsPrepare on the table.",
-    note="finite enumerated spellings and shapes; protocol v4, one backend node; the table list is taken from parser/metadata.go; malformed SELECT/USE "
+    note="finite enumerated spellings and shapes; protocol v4 and DSEv2, one backend node; the table list is taken from parser/metadata.go; malformed SELECT/USE "
          "not asserted; trusts the fake backend and the tracer ordering for the 'no backend frame' verdict; the failed-USE path is run on a core of rows only.",
     design="§6 C09")
 
